@@ -44,9 +44,38 @@ Definition replace_all (s old new : string) : string := replace_aux old new s 0.
 Definition lookup2 (m : langmap) (t c : string) : option string :=
   match alookup t m with Some cs => alookup c cs | None => None end.
 
-(** NewDefaultFormatter(m): the template for (type, code), else the type's fallback; every
-    {{key}} of the issue's params and {{value}} substituted by the %v rendering *)
+(** strings.NewReplacer(old1, new1, old2, new2, ...).Replace(s) for non-empty olds: one pass over s; at
+    each position the first pair (in argument order) whose old is a prefix of the rest is applied and
+    the scan goes on behind it; what a replacement inserts is not scanned again *)
+Fixpoint multi_aux (pairs : list (string * string)) (s : string) (skip : nat) : string :=
+  match s with
+  | EmptyString => EmptyString
+  | String a r =>
+    match skip with
+    | S k => multi_aux pairs r k
+    | O => match find (fun p => has_prefix (fst p) s) pairs with
+           | Some p => snd p ++ multi_aux pairs r (String.length (fst p) - 1)
+           | None => String a (multi_aux pairs r 0)
+           end
+    end
+  end.
+Definition multi_replace (pairs : list (string * string)) (s : string) : string := multi_aux pairs s 0.
+
+Definition ph (name : string) : string := "{{" ++ name ++ "}}".
+Definition ph_pairs (params : list (string * string)) : list (string * string) :=
+  map (fun kv => (ph (fst kv), snd kv)) params.
+
+(** NewDefaultFormatter(m) (repaired): the template for (type, code), else the type's fallback; every
+    {{key}} of the issue's params and {{value}} substituted by the %v rendering, in one pass *)
 Definition default_format (m : langmap) (dtype code : string) (params : list (string * string)) (value : string) : string :=
+  match lookup2 m dtype code with
+  | None => match lookup2 m dtype "fallback" with Some f => f | None => "" end
+  | Some tpl => multi_replace (ph_pairs (params ++ [("value", value)])) tpl
+  end.
+
+(** ... as it was: one strings.ReplaceAll per parameter, in the order the params map is ranged over,
+    then {{value}} *)
+Definition default_format_legacy (m : langmap) (dtype code : string) (params : list (string * string)) (value : string) : string :=
   match lookup2 m dtype code with
   | None => match lookup2 m dtype "fallback" with Some f => f | None => "" end
   | Some tpl =>
